@@ -2,6 +2,6 @@ SPECIFICATION Spec
 CONSTANTS
   MaxSteps = 2
   Leaves = {"int","string","MarshalerV","Rec","Empty"}
-  Steps = {"struct-named:lt","struct-named:gt","struct-named:amp","struct-named:mixed","struct-named:u2","ptr","slice","iface","map_s"}
+  Steps = {"struct-named:lt","struct-named:gt","struct-named:amp","struct-named:mixed","struct-named:u2","map_p","ptr","slice","iface","map_s"}
 INVARIANTS TypeOK Export
 CHECK_DEADLOCK FALSE
